@@ -79,13 +79,13 @@ def coverage_rule(ctx, prog, an, rule, exporter_path, structs, variant_of, label
     for i, (lp, cd, c) in enumerate(flat):
         if c[0] in ("atom", "bytes") and c[-1] and c[-1][0]:
             adt, fld = c[-1]
-            events.setdefault(adt, []).append((i, fld.split(".")[0] if adt.endswith("ScopeDataField") else fld, cd, c))
+            events.setdefault(adt, []).append((i, fld.split(".")[0] if adt.endswith("ScopeDataField") else fld, cd, c, lp[-1] if lp else None))
         for src in lp:
             ow = ex._loop_owner.get(src, (None, None))
             if ow[0]:
                 lst = events.setdefault(ow[0], [])
-                if not any(e[1] == ow[1] and e[3][0] == "loop" for e in lst):
-                    lst.append((i, ow[1], cd, ("loop", src)))
+                if not any(e[1] == ow[1] and e[3][0] == "loop" and e[4] == (lp[lp.index(src) - 1] if lp.index(src) > 0 else None) for e in lst):
+                    lst.append((i, ow[1], cd, ("loop", src), lp[lp.index(src) - 1] if lp.index(src) > 0 else None))
         if c[0] == "enc":
             pass
         if c[0] == "unknown":
@@ -98,16 +98,25 @@ def coverage_rule(ctx, prog, an, rule, exporter_path, structs, variant_of, label
             continue
         ev = sorted(events.get(adt, []), key=lambda x: x[0])
         emitted = []
-        for (i, fld, cd, c) in ev:
+        for (i, fld, cd, c, grp) in ev:
             if fld not in emitted:
                 emitted.append(fld)
+        # every place where this struct is written (each enclosing iteration) must write all of its wire fields
+        groups = {}
+        containers = [fld for (i, fld, cd, c, grp) in ev if c[0] == "loop"]
+        for (i, fld, cd, c, grp) in ev:
+            if c[0] != "loop":
+                groups.setdefault(grp, []).append(fld)
+        for g in groups:
+            groups[g] += containers
         expect = [f for (f, kind, w) in wf if kind != "derived" and not f.startswith("∅")]
         derived = [f for (f, kind, w) in wf if kind == "derived"]
         for f in expect:
             total += 1
-            ok = f in emitted
+            missing_in = [g for g, fl in groups.items() if f not in fl] if groups else [None]
+            ok = f in emitted and not missing_in
             ctx.ob(rule, adt, "emitted:%s" % f, ok,
-                   "%s.%s is %s by %s" % (adt.rsplit("::", 1)[1], f, "emitted" if ok else "parsed from the wire but never written", exporter_path.rsplit("::", 2)[-2] + "::to_be_bytes"))
+                   "%s.%s is %s by %s" % (adt.rsplit("::", 1)[1], f, "emitted" if ok else ("parsed from the wire but not written%s" % ((" when iterating %s" % missing_in) if f in emitted else "")), exporter_path.rsplit("::", 2)[-2] + "::to_be_bytes"))
         for f in derived:
             # `version` is injected by the parser but was consumed from the wire by the dispatcher: must be emitted
             if f == "version":
@@ -121,13 +130,13 @@ def coverage_rule(ctx, prog, an, rule, exporter_path, structs, variant_of, label
         # variant condition
         want = variant_of.get(adt)
         if want:
-            for (i, fld, cd, c) in ev:
+            for (i, fld, cd, c, grp) in ev:
                 vs = [v for (p, v) in cd if p.endswith(".body") or p.endswith("body")]
                 ok = bool(vs) and all(v in want for v in vs)
                 if not ok:
                     ctx.ob(rule, adt, "under-variant:%s" % fld, False, "%s.%s is emitted under condition %s, expected FlowSetBody::%s" % (adt.rsplit("::", 1)[1], fld, cd, sorted(want)))
         # plain field encoders (no recomputation): atoms must be to_be_bytes/octets of the field itself
-        for (i, fld, cd, c) in ev:
+        for (i, fld, cd, c, grp) in ev:
             if c[0] == "atom":
                 wmap = {f: w for (f, k, w) in wf if k != "derived"}
                 if fld in wmap and wmap[fld] is not None:
